@@ -184,6 +184,28 @@ def case(rec, pvl, reader, key, tier, holder):
         plans.append([(rng.choice(("delete", "duplicate", "swap", "replace",
                                    "truncate")), rng.randrange(n), rng.choice(pool))
                       for _ in range(k)])
+    # a missing value (the tolerated anomaly, C08) combined with one more
+    # damage: the repair paths must not hide the second anomaly
+    from .c08 import assignments
+    asg = assignments(doc)
+    combos = []
+    if asg:
+        for _ in range(4 if tier == "quick" else 12):
+            sid, vals, eqi = rng.choice(asg)
+            base = [t for k, t in enumerate(toks) if k not in set(vals)]
+            if len(base) < 3:
+                continue
+            op = rng.choice(("truncate", "delete", "replace", "swap"))
+            combos.append((base, [(op, rng.randrange(len(base)), rng.choice(pool))]))
+    for base, ops in combos:
+        dmg = apply_damage(base, ops)
+        desc = [("missing-value", None, None)] + \
+            [(o[0], o[1], o[2].text if o[0] == "replace" else None) for o in ops]
+        rec.case((reader, key, repr(desc)), True)
+        rec.count("damage[missing-value+other]")
+        if dmg:
+            judge(rec, pvl, reader, dmg, {"reader": reader, "seed": key,
+                                          "damage": desc}, holder)
     for ops in plans:
         dmg = apply_damage(toks, ops)
         desc = [(o[0], o[1], o[2].text if o[0] == "replace" else None) for o in ops]
@@ -213,7 +235,8 @@ def finish_kwargs(rec, tier):
     return dict(required_counters=("ref[ill]", "ref[ok]", "trace_laws_evaluated",
                                    "ill_formed_rejected_properly",
                                    "well_formed_agree", "damage[delete]",
-                                   "damage[truncate]", "damage[replace]"),
+                                   "damage[truncate]", "damage[replace]",
+                                   "damage[missing-value+other]"),
                 level="fault_enumeration",
                 assumptions=["reference recogniser vlib/refmodel.py (token "
                              "level; ambiguity => no verdict; empty blocks "
